@@ -10,11 +10,12 @@ The checks must stay silent on the result with the same number of rule instances
 usage: equiv_rewrite.py <dest-root> [--keep-tree]
 """
 import ast
+import os
 import pathlib
 import shutil
 import sys
 
-REPO = pathlib.Path("/repo")
+REPO = pathlib.Path(os.environ.get("NVSA_SRC_ROOT", "/repo"))
 MIRROR = {ast.Lt: ast.Gt, ast.Gt: ast.Lt, ast.LtE: ast.GtE, ast.GtE: ast.LtE}
 
 
